@@ -9,7 +9,8 @@ import BfeVerif.C09.Proofs
   no close-of-closed-channel panic and no released backend can be selected.
   Merge (`BalanceRR.Update`, `BalanceGslb.Reload`): survivors keep their state, proved for arbitrary lists.
   "The table shows the configuration" is violated by the unchanged code when the cluster table lacks a (sub-)cluster the
-  gslb conf names (known findings, witness theorem below); the provable part is `C09_table_shows_conf_partial`.
+  gslb conf names (known findings, witness theorem below); proved is the per-sub-cluster part `C09_update_shows_conf`
+  (whenever Update runs, the list afterwards carries exactly the configured Addr:Port set).
 -/
 namespace BfeVerif.C09
 
@@ -36,6 +37,27 @@ theorem C09_update_survivor_state (old : List Backend) (conf : List BConf) :
     · exact Or.inl (h1 b hb)
     · obtain ⟨c, hc, rfl⟩ := List.mem_map.mp hb
       exact Or.inr ⟨c, confMap_sub conf c (h3 c (List.mem_mergeSort.mp hc)), rfl⟩
+
+/-- After Update the sub-cluster carries exactly the configured addresses: an Addr:Port is in the list iff it is in the
+    conf (so removed ones are gone and added ones are present). -/
+theorem C09_update_shows_conf (old : List Backend) (conf : List BConf) (k : String) :
+    (∃ b ∈ (rrUpdate old conf).1, b.key = k) ↔ (∃ c ∈ conf, c.key = k) := by
+  obtain ⟨h1, h2⟩ := updLoop_keys old (confMap conf)
+  obtain ⟨_, _, h3, _⟩ := updLoop_spec old (confMap conf)
+  rw [← confMap_keys conf k]
+  unfold rrUpdate
+  simp only []
+  constructor
+  · rintro ⟨b, hb, hk⟩
+    rcases List.mem_append.mp hb with hb | hb
+    · obtain ⟨c, hc, hck⟩ := h1 b hb
+      exact ⟨c, hc, hck.trans hk⟩
+    · obtain ⟨c, hc, rfl⟩ := List.mem_map.mp hb
+      exact ⟨c, h3 c (List.mem_mergeSort.mp hc), hk⟩
+  · rintro ⟨c, hc, hk⟩
+    rcases h2 c hc with ⟨b, hb, hbk⟩ | hr
+    · exact ⟨b, List.mem_append_left _ hb, hbk.trans hk⟩
+    · exact ⟨mkNew c, List.mem_append_right _ (List.mem_map.mpr ⟨c, List.mem_mergeSort.mpr hr, rfl⟩), hk⟩
 
 /-- Newly added backends are selectable: fresh objects are available, unreleased, with the configured weight. -/
 theorem C09_added_selectable (c : BConf) :
